@@ -9,20 +9,21 @@ import (
 )
 
 // Value is one of:
-//   *Term     integers, booleans, floats (as IEEE bit patterns)
-//   *StrV     strings
-//   Struct    struct by value (cells), copied on load/store
-//   *ArrObj   array by value (cells), copied on load/store; also backing store of slices
-//   Tuple     multiple results
-//   Ptr       pointer
-//   Slice     slice
-//   Iface     interface value
-//   *Closure  function value with environment
-//   *ssa.Function, *ssa.Builtin  plain function values
-//   *MapV     map (nil pointer = nil map)
-//   *RVal, *RType  reflect shim values (reflect.go)
-//   nilFunc   nil func value
-//   Opaque    opaque host value (stubs)
+//
+//	*Term     integers, booleans, floats (as IEEE bit patterns)
+//	*StrV     strings
+//	Struct    struct by value (cells), copied on load/store
+//	*ArrObj   array by value (cells), copied on load/store; also backing store of slices
+//	Tuple     multiple results
+//	Ptr       pointer
+//	Slice     slice
+//	Iface     interface value
+//	*Closure  function value with environment
+//	*ssa.Function, *ssa.Builtin  plain function values
+//	*MapV     map (nil pointer = nil map)
+//	*RVal, *RType  reflect shim values (reflect.go)
+//	nilFunc   nil func value
+//	Opaque    opaque host value (stubs)
 type Value interface{}
 
 type StrV struct {
